@@ -23,6 +23,13 @@ func genC18(w *World, res *CheckResult) {
 	res.Functions = append(res.Functions, g.funcs...)
 	res.Obls = append(res.Obls, selectObls(genPureAll(w), `^vm\.(equal|less)/`)...)
 	genCheckerPointer(w, res)
+	// membership in a literal integer range is rewritten to exactly the two-sided comparison, for int operands only (cells of C02)
+	{
+		tmp := &CheckResult{}
+		genInRange(w, tmp)
+		res.Obls = append(res.Obls, selectObls(tmp.Obls, `^optimizer\.inRange\[.*\]/post:(shape|int-guard)$`)...)
+		res.Functions = append(res.Functions, "optimizer.inRange.Exit")
+	}
 	// ranges: makeRange builds exactly min..max
 	tmp := &CheckResult{}
 	if pd := propByID("T00"); pd != nil {
